@@ -105,10 +105,11 @@ class GSA(Optimizer):
         best, worst = agents[0].fit, agents[-1].fit
 
         # Calculating agents' masses using equation 15
-        mass = [(agent.fit - worst) / (best - worst) for agent in agents]
+        mass = [(agent.fit - worst) / (best - worst - c.EPSILON)
+                for agent in agents]
 
         # Normalizing agents' masses
-        norm_mass = mass / np.sum(mass)
+        norm_mass = mass / (np.sum(mass) + c.EPSILON)
 
         return norm_mass
 
